@@ -83,7 +83,16 @@ def gen_source(rng, idx, big=None):
         # known.  In pass 2 the branch still sees its target at the old, too distant address: an error is reported in a pass
         # that is then repeated (documented; -Y hides it).  Whatever is reported must still decide status and code file.
         k = rng.randint(52, 75)
-        L[1:1] = ["\tbeq sk%d" % idx] + ["\tlda zv%d" % idx] * k + ["sk%d:\tnop" % idx]
+        br = ["\tbeq sk%d" % idx]
+        if rng.chance(0.4):
+            br = ["\texpect 1370"] + br + ["\tendexpect"]  # the spurious error announced as expected
+        pre = []
+        if rng.chance(0.4):
+            # a branch that is out of reach in every pass and announced as such, in front of labels that still move
+            pre = ["bk%d:\tnop" % idx, "\tdfs 200", "\texpect 1370", "\tbne bk%d" % idx, "\tendexpect"]
+            if rng.chance(0.5):
+                br = []
+        L[1:1] = pre + br + ["\tlda zv%d" % idx] * k + ["sk%d:\tnop" % idx]
         L.append("zv%d\tequ $10" % idx)
     if rng.chance(0.3):
         # diagnostics that are only issued when the pass ends, after the last source line has been read
@@ -93,7 +102,7 @@ def gen_source(rng, idx, big=None):
 
 LATE = ["v%d\tequ 1\n\tpushv st%d,v%d", "\tif 1\n\tnop", "\tsave", "\tsection sec%d\n\tnop", "rec%d\tstruct\nf\tdfs 1",
         "mac%d\tmacro\n\tnop", "\tphase 100\n\tnop", "\tsave\n\tsave", "v%d\tequ 1\n\tpushv st%d,v%d\n\tpushv su%d,v%d"]
-OPTS = [["-l"], ["-Werror"], ["-maxerrors", "1"], ["-maxerrors", "3"], ["-x"], ["-x", "-x"], ["-n"], ["-w"], ["-L"],
+OPTS = [["-Y"], ["-l"], ["-Werror"], ["-maxerrors", "1"], ["-maxerrors", "3"], ["-x"], ["-x", "-x"], ["-n"], ["-w"], ["-L"],
         ["-gnuerrors"], ["-E", "!1"], ["-E", "!2"], ["-E", "err.log"], ["-E"], ["-g", "MAP"], ["-u"], ["-C"],
         ["-a"], ["-c"], ["-P"], ["-M"], ["-G"]]
 
@@ -130,6 +139,8 @@ def gen_case(seed):
             if o[0] == "-E" and any(x == "-E" for x in opts):
                 continue
             opts += o
+    if any(b"\tequ $10" in v for v in disk.values()) and "-Y" not in opts and rng.chance(0.5):
+        opts = ["-Y"] + opts  # the forward-reference trap is what -Y is for: half of its cases run with it
     if not rng.chance(0.3):
         opts = ["-q"] + opts
     tail = []
@@ -194,6 +205,9 @@ def judge(sc, names, r, san):
     werror = "-Werror" in opts
     gnu = "-gnuerrors" in opts
     no_code = "-G" in opts
+    # -Y forgives branch-range errors of a pass whose labels still moved: they were written, but are taken out of the
+    # count again.  Written error lines then are an upper bound of what the run is answerable for, not the exact number.
+    forgiving = "-Y" in opts
     evs = r.ev()
     # where do diagnostics go?
     chan = "<stderr>"
@@ -247,13 +261,13 @@ def judge(sc, names, r, san):
     code = r.code
     stats = {"errors": total_err, "fatal": int(fatal_seen)}
     # (a) exit 0 <=> no error and no fatal
-    if code == 0 and (total_err > 0 or fatal_seen):
+    if code == 0 and ((total_err > 0 and not forgiving) or fatal_seen):
         out.append(("C02/exit0-with-errors", "exit 0 but %d error line(s), fatal=%s" % (total_err, fatal_seen)))
     if code != 0 and total_err == 0 and not fatal_seen and code in (2, 3):
         out.append(("C02/exit%d-without-errors" % code, "exit %d but no error was reported" % code))
     if fatal_seen and code != 3:
         out.append(("C02/fatal-but-exit%d" % code, "fatal marker written, exit %d" % code))
-    if not fatal_seen and total_err > 0 and code != 2:
+    if not fatal_seen and total_err > 0 and code != 2 and not forgiving:
         out.append(("C02/errors-but-exit%d" % code, "%d errors reported, exit %d" % (total_err, code)))
     # (a') the stop at the -maxerrors limit is announced as "too many errors": then that many errors must have been reported
     if b"too many errors, assembly terminated" in (r.stdout + r.stderr + b"".join(v for k, v in r.files.items() if v and k.endswith(".log"))) \
@@ -270,9 +284,9 @@ def judge(sc, names, r, san):
     if "-o" in argv and len(names) == 1:
         o = argv[argv.index("-o") + 1]
         cpath[names[0]] = o if o.startswith("/") else "/w/" + (o[2:] if o.startswith("./") else o)
-    if total_err > 0 or fatal_seen:
+    if (total_err > 0 and not forgiving) or fatal_seen:
         # whatever its name: nothing that looks like a code file may be left for a source with errors
-        ok_paths = {cpath[n] for n in names if per_file.get(n, [0, 0, False])[0] == 0 and not per_file.get(n, [0, 0, False])[2]}
+        ok_paths = {cpath[n] for n in names if (forgiving or per_file.get(n, [0, 0, False])[0] == 0) and not per_file.get(n, [0, 0, False])[2]}
         for k, v in sorted(r.files.items()):
             if v and v[:2] == b"\x89\x14" and k not in ok_paths and not lst_stdout:
                 out.append(("C02/code-file-left-after-errors", "%s holds a code file (%d bytes) after a run with %d error(s), fatal=%s" % (k, len(v), total_err, fatal_seen)))
@@ -280,7 +294,7 @@ def judge(sc, names, r, san):
     for n in names:
         p = r.files.get(cpath[n])
         d = per_file.get(n, [0, 0, False])
-        if d[0] > 0 and p is not None:
+        if d[0] > 0 and p is not None and not forgiving:
             out.append(("C02/code-file-left-after-errors", "%s.p exists (%d bytes) although %d error(s) were reported for it"
                          % (n, len(p), d[0])))
         if code == 0 and p is None and not no_code:
@@ -297,7 +311,7 @@ def judge(sc, names, r, san):
         per = 1 if "-q" in opts else 2  # the listing's own summary, plus the console summary unless quiet
         if sums and not fatal_seen and len(sums) == per * len(names) and all(x[0] is not None and x[1] is not None for x in sums):
             se = sum(x[0] for x in sums) // per
-            if se != total_err:
+            if se > total_err if forgiving else se != total_err:
                 out.append(("C02/summary-error-count", "summaries say %d errors in total, %d error lines written (stderr and stdout listing)" % (se, total_err)))
             sw = sum(x[1] for x in sums) // per
             tw = sum(d[1] for d in per_file.values()) + lst_w
@@ -313,15 +327,23 @@ def judge(sc, names, r, san):
         if sums and not fatal_seen and len(sums) == len(names):
             for n, (se, sw) in zip(names, sums):
                 d = per_file.get(n, [0, 0, False])
-                if se is not None and se != d[0]:
+                if se is not None and (se > d[0] if forgiving else se != d[0]):
                     out.append(("C02/summary-error-count", "%s: summary says %d errors, %d error lines written" % (n, se, d[0])))
                 if sw is not None and sw != d[1] and "-w" not in opts:
                     out.append(("C02/summary-warning-count", "%s: summary says %d warnings, %d warning lines in the last pass" % (n, sw, d[1])))
+        if forgiving and sums and not fatal_seen and len(sums) == len(names) and all(x[0] is not None for x in sums):
+            # what is left in the count after forgiving decides the status and the code files
+            left = sum(x[0] for x in sums)
+            if (left > 0) != (code != 0):
+                out.append(("C02/summary-vs-exit", "summaries count %d error(s) after forgiving, exit %d" % (left, code)))
+            for n, (se, _) in zip(names, sums):
+                if se > 0 and r.files.get(cpath[n]) is not None:
+                    out.append(("C02/code-file-left-after-errors", "%s.p exists although its summary counts %d error(s)" % (n, se)))
         for n, s1 in zip(names, lsts):
             if s1 and not fatal_seen and len(s1) == 1:
                 se, sw = s1[0]
                 d = per_file.get(n, [0, 0, False])
-                if se is not None and se != d[0]:
+                if se is not None and (se > d[0] if forgiving else se != d[0]):
                     out.append(("C02/listing-summary-error-count", "%s.lst says %d errors, %d written" % (n, se, d[0])))
     return out, stats
 
